@@ -2133,3 +2133,239 @@ Section GzipAnyOrder.
     apply (marshal_roundtrip zip unzip unzip_zip); [exact (fdesc_ok_equiv d d' He Hok)|exact Hwf].
   Qed.
 End GzipAnyOrder.
+
+(* ================================================================ 10. equivalent descriptors fit the wire together *)
+
+(* same wire type, and well-formedness carries over *)
+Definition wsim (w w' : wval) : Prop := wtype w = wtype w' /\ (wf w -> wf w').
+Definition slot_rel (s s' : slot) : Prop := snd s = snd s' /\ wsim (fst s) (fst s').
+
+Lemma wsim_refl w : wsim w w.
+Proof. split; auto. Qed.
+Lemma slot_refl s : slot_rel s s.
+Proof. split; [reflexivity|apply wsim_refl]. Qed.
+Lemma slot_nz w w' : wsim w w' -> slot_rel (nz w) (nz w').
+Proof. intro H. split; [reflexivity|exact H]. Qed.
+
+Lemma emit_wf lay : forall sl sl', Forall2 slot_rel sl sl' ->
+  Forall (fun f : wfield => wtype (snd f) = fst (fst f) /\ in_srange 2 (snd (fst f)) /\ wf (snd f)) (emit lay sl) ->
+  Forall (fun f : wfield => wtype (snd f) = fst (fst f) /\ in_srange 2 (snd (fst f)) /\ wf (snd f)) (emit lay sl').
+Proof.
+  induction lay as [|[[t id] r] lay IH]; intros sl sl' F H; [destruct sl'; constructor|].
+  destruct F as [|[w z] [w' z'] sl sl' [Hz [Ht Hw]] F]; cbn [emit fst snd] in *; [constructor|]. subst z'.
+  destruct (req_eqb r Optional && z); [apply (IH _ _ F H)|].
+  inversion H as [|? ? [A [B C]] H']; subst. cbn [fst snd] in *. constructor; [|apply (IH _ _ F H')].
+  cbn [fst snd]. split; [congruence|]. split; [exact B|apply Hw; exact C].
+Qed.
+
+Lemma emit_wsim lay sl sl' : Forall2 slot_rel sl sl' -> wsim (wstruct lay sl) (wstruct lay sl').
+Proof.
+  intro F. split; [reflexivity|]. unfold wstruct. rewrite !wf_struct_iff. apply emit_wf. exact F.
+Qed.
+
+Lemma smap_wsim {A} vt (e : A -> wval) (m m' : smap A) : Permutation m m' -> wsim (w_smap vt e m) (w_smap vt e m').
+Proof.
+  intro Hp. split; [reflexivity|]. unfold w_smap. rewrite !wf_map_iff, !map_length, (Permutation_length Hp).
+  intros [Hl Hf]. split; [exact Hl|]. eapply Forall_perm; [apply Permutation_map; exact Hp|exact Hf].
+Qed.
+
+Lemma F2_len {A B} (R : A -> B -> Prop) l l' : Forall2 R l l' -> List.length l = List.length l'.
+Proof. induction 1; cbn [List.length]; congruence. Qed.
+
+Lemma structs_wsim {A} (R : A -> A -> Prop) (e : A -> wval) l l' :
+  (forall x y, R x y -> wsim (e x) (e y)) -> Forall2 R l l' -> wsim (w_structs e l) (w_structs e l').
+Proof.
+  intros H F. split; [reflexivity|]. unfold w_structs. rewrite !wf_list_iff, !map_length.
+  intros [Hl Hf]. split; [rewrite <- (F2_len _ _ _ F); exact Hl|].
+  clear Hl. induction F as [|x y l l' Hr F IH]; cbn [map] in *; [constructor|].
+  inversion Hf as [|? ? [Ht Hw] Hf']; subst. destruct (H x y Hr) as [Et Ew].
+  constructor; [split; [congruence|apply Ew; exact Hw]|apply IH; exact Hf'].
+Qed.
+
+Lemma slot_extra e e' : extra_eq e e' -> slot_rel (s_extra e) (s_extra e').
+Proof.
+  intro H. inversion H as [|m m' Hp]; subst; cbn [s_extra]; [apply slot_refl|].
+  split; [reflexivity|]. cbn [fst]. apply smap_wsim. exact Hp.
+Qed.
+Lemma slot_annos a a' : Permutation a a' -> slot_rel (s_annos a) (s_annos a').
+Proof. intro H. apply slot_nz. apply smap_wsim. exact H. Qed.
+Lemma slot_strmap a a' : Permutation a a' -> slot_rel (s_strmap a) (s_strmap a').
+Proof. intro H. apply slot_nz. apply smap_wsim. exact H. Qed.
+Lemma slot_opt {A} (R : A -> A -> Prop) (e : A -> wval) o o' :
+  (forall x y, R x y -> wsim (e x) (e y)) -> optR R o o' -> slot_rel (s_opt e o) (s_opt e o').
+Proof.
+  intros H Ho. inversion Ho as [|x y Hr]; subst; cbn [s_opt]; [apply slot_refl|].
+  split; [reflexivity|]. cbn [fst]. apply H. exact Hr.
+Qed.
+Lemma slot_structs {A} (R : A -> A -> Prop) (e : A -> wval) l l' :
+  (forall x y, R x y -> wsim (e x) (e y)) -> Forall2 R l l' -> slot_rel (nz (w_structs e l)) (nz (w_structs e l')).
+Proof. intros H F. apply slot_nz. eapply structs_wsim; eassumption. Qed.
+
+Ltac slots := repeat apply Forall2_cons; try apply Forall2_nil.
+
+(* ---- TypeDescriptor ---- *)
+Lemma tdesc_wsim : forall a b, tdesc_eq a b -> wsim (enc_tdesc a) (enc_tdesc b).
+Proof.
+  induction a as [p n k v ex IHk IHv] using tdesc_ind'. intros [p' n' k' v' ex']. cbn [tdesc_eq].
+  intros (-> & -> & Hk & Hv & He). cbn [enc_tdesc]. apply emit_wsim. slots; try apply slot_refl; [| |apply slot_extra; exact He].
+  - destruct k, k'; try contradiction; [|apply slot_refl]. split; [reflexivity|]. cbn [fst]. apply (IHk _ eq_refl). exact Hk.
+  - destruct v, v'; try contradiction; [|apply slot_refl]. split; [reflexivity|]. cbn [fst]. apply (IHv _ eq_refl). exact Hv.
+Qed.
+
+(* ---- ConstValueDescriptor ---- *)
+Lemma structs_wsim_in {A} (R : A -> A -> Prop) (e : A -> wval) l l' :
+  Forall (fun x => forall y, R x y -> wsim (e x) (e y)) l -> Forall2 R l l' -> wsim (w_structs e l) (w_structs e l').
+Proof.
+  intros H F. split; [reflexivity|]. unfold w_structs. rewrite !wf_list_iff, !map_length.
+  intros [Hl Hf]. split; [rewrite <- (F2_len _ _ _ F); exact Hl|].
+  clear Hl. induction F as [|x y l l' Hr F IH]; cbn [map] in *; [constructor|].
+  inversion Hf as [|? ? [Ht Hw] Hf']; subst. inversion H as [|? ? Hx Hrest]; subst. destruct (Hx y Hr) as [Et Ew].
+  constructor; [split; [congruence|apply Ew; exact Hw]|apply IH; assumption].
+Qed.
+
+Definition enc_pair (kv : cvdesc * cvdesc) : wval * wval := (enc_cvdesc (fst kv), enc_cvdesc (snd kv)).
+
+Lemma pairs_wf_transfer l0 m' :
+  Forall (fun kv : cvdesc * cvdesc => (forall y, cvd_eq (fst kv) y -> wsim (enc_cvdesc (fst kv)) (enc_cvdesc y)) /\
+                                      (forall y, cvd_eq (snd kv) y -> wsim (enc_cvdesc (snd kv)) (enc_cvdesc y))) l0 ->
+  Forall2 (pairR cvd_eq) l0 m' ->
+  Forall (fun p : wval * wval => wtype (fst p) = T_STRUCT /\ wtype (snd p) = T_STRUCT /\ wf (fst p) /\ wf (snd p)) (map enc_pair l0) ->
+  Forall (fun p : wval * wval => wtype (fst p) = T_STRUCT /\ wtype (snd p) = T_STRUCT /\ wf (fst p) /\ wf (snd p)) (map enc_pair m').
+Proof.
+  intros H F. induction F as [|x y l l' Hr F IH]; cbn [map]; intro Hf; [constructor|].
+  inversion Hf as [|? ? (T1 & T2 & W1 & W2) Hf']; subst. inversion H as [|? ? [Hk Hv] Hrest]; subst.
+  inversion Hr as [a b a' b' Ra Rb]; subst. cbn [enc_pair fst snd] in *.
+  destruct (Hk a' Ra) as [Ek Wk]. destruct (Hv b' Rb) as [Ev Wv].
+  constructor; [|apply IH; assumption]. cbn [enc_pair fst snd]. repeat split; [congruence|congruence|auto|auto].
+Qed.
+
+Lemma cvdesc_wsim : forall a b, cvd_eq a b -> wsim (enc_cvdesc a) (enc_cvdesc b).
+Proof.
+  induction a as [ty dbl int str b l m id ex IHl IHm] using cvdesc_ind'. intros c H.
+  inversion H as [? ? ? ? ? ? l' ? m' ? ? ex' Hl Hm He]; subst.
+  cbn [enc_cvdesc]. apply emit_wsim. slots; try apply slot_refl; [| |apply slot_extra; exact He].
+  - inversion Hl as [|x y F]; subst; [apply slot_refl|]. split; [reflexivity|]. cbn [fst].
+    rewrite !enc_cv_list_eq. apply (structs_wsim_in cvd_eq enc_cvdesc x y (IHl x eq_refl) F).
+  - inversion Hm as [|x y F]; subst; [apply slot_refl|]. split; [reflexivity|]. cbn [fst].
+    rewrite !enc_cv_map_eq. split; [reflexivity|]. inversion F as [q l0 q' Hp F2 E1 E2]. subst q q'.
+    change (fun kv : cvdesc * cvdesc => (enc_cvdesc (fst kv), enc_cvdesc (snd kv))) with enc_pair.
+    rewrite !wf_map_iff, !map_length, (Permutation_length Hp), (F2_len _ _ _ F2).
+    intros [Hlen Hf]. split; [exact Hlen|].
+    apply (pairs_wf_transfer l0 y); [|exact F2|].
+    + apply (Forall_perm _ x l0 Hp). eapply Forall_impl; [|exact (IHm x eq_refl)]. intros [k v] [A B]. split; assumption.
+    + eapply Forall_perm; [apply Permutation_map; exact Hp|exact Hf].
+Qed.
+
+(* ---- the other descriptors ---- *)
+Lemma fielddesc_wsim a b : fielddesc_eq a b -> wsim (enc_fielddesc a) (enc_fielddesc b).
+Proof.
+  destruct a, b. unfold fielddesc_eq, enc_fielddesc. cbn. intros (-> & -> & A3 & -> & -> & A6 & A7 & -> & A9).
+  apply emit_wsim. slots; try apply slot_refl.
+  - apply slot_nz. apply tdesc_wsim. exact A3.
+  - apply (slot_opt cvd_eq); [exact cvdesc_wsim|exact A6].
+  - apply slot_annos. exact A7.
+  - apply slot_extra. exact A9.
+Qed.
+
+Lemma structdesc_wsim a b : structdesc_eq a b -> wsim (enc_structdesc a) (enc_structdesc b).
+Proof.
+  destruct a, b. unfold structdesc_eq, enc_structdesc, enc_fielddescs. cbn. intros (-> & -> & A3 & A4 & -> & A6).
+  apply emit_wsim. slots; try apply slot_refl.
+  - apply (slot_structs fielddesc_eq); [exact fielddesc_wsim|exact A3].
+  - apply slot_annos. exact A4.
+  - apply slot_extra. exact A6.
+Qed.
+Lemma enumvaluedesc_wsim a b : enumvaluedesc_eq a b -> wsim (enc_enumvaluedesc a) (enc_enumvaluedesc b).
+Proof.
+  destruct a, b. unfold enumvaluedesc_eq, enc_enumvaluedesc. cbn. intros (-> & -> & -> & A4 & -> & A6).
+  apply emit_wsim. slots; try apply slot_refl; [apply slot_annos; exact A4|apply slot_extra; exact A6].
+Qed.
+Lemma enumdesc_wsim a b : enumdesc_eq a b -> wsim (enc_enumdesc a) (enc_enumdesc b).
+Proof.
+  destruct a, b. unfold enumdesc_eq, enc_enumdesc. cbn. intros (-> & -> & A3 & A4 & -> & A6).
+  apply emit_wsim. slots; try apply slot_refl.
+  - apply (slot_structs enumvaluedesc_eq); [exact enumvaluedesc_wsim|exact A3].
+  - apply slot_annos. exact A4.
+  - apply slot_extra. exact A6.
+Qed.
+Lemma typedefdesc_wsim a b : typedefdesc_eq a b -> wsim (enc_typedefdesc a) (enc_typedefdesc b).
+Proof.
+  destruct a, b. unfold typedefdesc_eq, enc_typedefdesc. cbn. intros (-> & A2 & -> & A4 & -> & A6).
+  apply emit_wsim. slots; try apply slot_refl.
+  - apply slot_nz. apply tdesc_wsim. exact A2.
+  - apply slot_annos. exact A4.
+  - apply slot_extra. exact A6.
+Qed.
+Lemma methoddesc_wsim a b : methoddesc_eq a b -> wsim (enc_methoddesc a) (enc_methoddesc b).
+Proof.
+  destruct a, b. unfold methoddesc_eq, enc_methoddesc, enc_fielddescs. cbn. intros (-> & -> & A3 & A4 & A5 & -> & A7 & -> & A9).
+  apply emit_wsim. slots; try apply slot_refl.
+  - apply (slot_opt tdesc_eq); [exact tdesc_wsim|exact A3].
+  - apply (slot_structs fielddesc_eq); [exact fielddesc_wsim|exact A4].
+  - apply slot_annos. exact A5.
+  - apply (slot_structs fielddesc_eq); [exact fielddesc_wsim|exact A7].
+  - apply slot_extra. exact A9.
+Qed.
+Lemma servicedesc_wsim a b : servicedesc_eq a b -> wsim (enc_servicedesc a) (enc_servicedesc b).
+Proof.
+  destruct a, b. unfold servicedesc_eq, enc_servicedesc. cbn. intros (-> & -> & A3 & A4 & -> & A6 & ->).
+  apply emit_wsim. slots; try apply slot_refl.
+  - apply (slot_structs methoddesc_eq); [exact methoddesc_wsim|exact A3].
+  - apply slot_annos. exact A4.
+  - apply slot_extra. exact A6.
+Qed.
+Lemma constdesc_wsim a b : constdesc_eq a b -> wsim (enc_constdesc a) (enc_constdesc b).
+Proof.
+  destruct a, b. unfold constdesc_eq, enc_constdesc. cbn. intros (-> & -> & A3 & A4 & A5 & -> & A7).
+  apply emit_wsim. slots; try apply slot_refl.
+  - apply slot_nz. apply tdesc_wsim. exact A3.
+  - apply slot_nz. apply cvdesc_wsim. exact A4.
+  - apply slot_annos. exact A5.
+  - apply slot_extra. exact A7.
+Qed.
+
+Lemma fdesc_wsim a b : fdesc_equiv a b -> wsim (enc_fdesc a) (enc_fdesc b).
+Proof.
+  destruct a, b. unfold fdesc_equiv, enc_fdesc. cbn. intros (-> & A2 & A3 & A4 & A5 & A6 & A7 & A8 & A9 & A10 & A11).
+  apply emit_wsim. slots; try apply slot_refl.
+  - apply slot_strmap. exact A2.
+  - apply slot_strmap. exact A3.
+  - apply (slot_structs servicedesc_eq); [exact servicedesc_wsim|exact A4].
+  - apply (slot_structs structdesc_eq); [exact structdesc_wsim|exact A5].
+  - apply (slot_structs structdesc_eq); [exact structdesc_wsim|exact A6].
+  - apply (slot_structs enumdesc_eq); [exact enumdesc_wsim|exact A7].
+  - apply (slot_structs typedefdesc_eq); [exact typedefdesc_wsim|exact A8].
+  - apply (slot_structs structdesc_eq); [exact structdesc_wsim|exact A9].
+  - apply (slot_structs constdesc_eq); [exact constdesc_wsim|exact A10].
+  - apply slot_extra. exact A11.
+Qed.
+
+(* equivalent descriptors fit the wire format together *)
+Theorem fdesc_wf_equiv a b : fdesc_equiv a b -> wf (enc_fdesc a) -> wf (enc_fdesc b).
+Proof. intro H. exact (proj2 (fdesc_wsim a b H)). Qed.
+
+(* the bytes of any entry-order permutation d' of d read back to a descriptor equivalent to d: the
+   premises speak about d only *)
+Theorem meta_roundtrip_any_order d d' rest :
+  fdesc_ok d = true -> wfb (enc_fdesc d) = true -> fdesc_equiv d d' ->
+  exists d'', meta_unmarshal (meta_marshal d' ++ rest) = Some d'' /\ fdesc_equiv d'' d.
+Proof.
+  intros Hok Hwf He. exists d'. split; [|apply fdesc_equiv_sym; exact He].
+  unfold meta_unmarshal, meta_marshal. destruct (enc_fdesc_struct d') as [fs Hfs]. rewrite Hfs.
+  rewrite dec_struct_enc by (rewrite <- Hfs; apply (fdesc_wf_equiv d d' He); apply wfb_sound; exact Hwf).
+  rewrite <- Hfs. apply fdesc_rt. exact (fdesc_ok_equiv d d' He Hok).
+Qed.
+
+Section GzipAnyOrderFull.
+  Variable zip : bytes -> bytes.
+  Variable unzip : bytes -> option bytes.
+  Hypothesis unzip_zip : forall x, unzip (zip x) = Some x.
+
+  Theorem marshal_roundtrip_every_order d d' :
+    fdesc_ok d = true -> wfb (enc_fdesc d) = true -> fdesc_equiv d d' ->
+    exists d'', unmarshal unzip (marshal zip d') = Some d'' /\ fdesc_equiv d'' d.
+  Proof.
+    intros Hok Hwf He. unfold unmarshal, marshal. rewrite unzip_zip.
+    rewrite <- (app_nil_r (meta_marshal d')). apply meta_roundtrip_any_order; assumption.
+  Qed.
+End GzipAnyOrderFull.
